@@ -188,6 +188,16 @@ mutual
     | _, _ => ""
 end
 
+mutual
+  def showItem : Item → String
+    | .str bs => "s" ++ hexRaw bs
+    | .list is => "l(" ++ showItems is ++ ")"
+  def showItems : List Item → String
+    | [] => ""
+    | [i] => showItem i
+    | i :: is => showItem i ++ "," ++ showItems is
+end
+
 structure St where
   env : Env := {}
   encoded : Nat := 0     -- values of this case the encoder accepted (what `cenc` re-encodes concurrently)
@@ -224,6 +234,8 @@ def step (s : St) (toks : List String) : St × String :=
   | "dec" :: _ =>
     match (arg? toks "ty").bind parseTyStr, argNat? toks "pre", argHex? toks "bytes" with
     | some t, some pre, some b =>
+      -- via a reactor's decodeMsg: `max` is the size above which the message is refused before decoding
+      if (match argNat? toks "max" with | some m => decide (b.length > m) | none => false) then (s, "err res=ok") else
       match decodeBytes s.env t (pre == 1) b with
       | .ok v => (s, "ok v=" ++ showVal v ++ " " ++ (match answerEnc (encodeBytes s.env t [] v) with
           | "panic" => "b2=panic"
@@ -233,6 +245,93 @@ def step (s : St) (toks : List String) : St × String :=
       | .error .unsupported => (s, "unsupported")
       | .error _ => (s, "err res=ok")
     | _, _, _ => (s, "bad-op")
+  | "sstore" :: _ => (s, "ok")    -- storage slots through the real StateDB: the monitor compares what was written with what is read
+  | "sobj" :: _ =>
+    -- the account bytes in the state trie = the encoding of the Account value (stateObject.EncodeSER encodes c.data)
+    match (arg? toks "ty").bind parseTyStr, (arg? toks "val").bind parseValStr with
+    | some t, some v => (s, answerEnc (encodeBytes s.env t [] v))
+    | _, _ => (s, "bad-op")
+  | "apitest" :: _ => (s, "ok")   -- API self-checks of the harness (no model side)
+  | "regtest" :: _ => (s, "ok")   -- registry self-checks of the harness (no model side)
+  | "sops" :: _ =>
+    -- a program of public Stream calls on one stream: K(ind) U(int) o(Bool) B(ytes) L(ist) E(ListEnd) R(aw)
+    match argHex? toks "bytes", arg? toks "lim", arg? toks "prog" with
+    | some b, some ls, some prog =>
+      let st0 : Option Stream :=
+        if ls == "b" then some { rest := b }
+        else if ls == "u" then some { rest := b, unlimited := true }
+        else if ls.startsWith "l" then
+          ((ls.drop 1).toString.toNat?).map fun n =>
+            (if n == 0 then ({ rest := b, unlimited := true, kind := some Kind.list, size := 0 } : Stream)
+             else if n ≤ b.length then { rest := b.take n, kind := some Kind.list, size := n }
+             else { rest := b, phantom := n - b.length, kind := some Kind.list, size := n })
+        else (ls.toNat?).map fun n =>
+          (if n == 0 then ({ rest := b, unlimited := true } : Stream)
+           else if n ≤ b.length then { rest := b.take n } else { rest := b, phantom := n - b.length })
+      match st0 with
+      | none => (s, "bad-op")
+      | some st0 =>
+        let showE (e : Err) : String := if e == Err.eol then "eol" else "e"
+        let stepP (acc : Stream × List String) (c : Char) : Stream × List String :=
+          let (st, out) := acc
+          match c with
+          | 'K' => match kindOf st with
+            | ((_, _, some e), st) => (st, showE e :: out)
+            | ((k, sz, none), st) => (st, s!"k{match k with | .byte => 0 | .string => 1 | .list => 2}:{sz}" :: out)
+          | 'U' => match sUint 64 st with
+            | (.error e, st) => (st, showE e :: out)
+            | (.ok n, st) => (st, s!"u{n}" :: out)
+          | 'o' => match sBool st with
+            | (.error e, st) => (st, showE e :: out)
+            | (.ok v, st) => (st, (if v then "t" else "f") :: out)
+          | 'B' => match sBytes st with
+            | (.error e, st) => (st, showE e :: out)
+            | (.ok v, st) => (st, ("b" ++ hexRaw v) :: out)
+          | 'L' => match sList st with
+            | (.error e, st) => (st, showE e :: out)
+            | (.ok n, st) => (st, s!"l{n}" :: out)
+          | 'E' => match sListEnd st with
+            | (some e, st) => (st, showE e :: out)
+            | (none, st) => (st, "ok" :: out)
+          | 'R' => match sRaw st with
+            | (.error e, st) => (st, showE e :: out)
+            | (.ok v, st) => (st, ("r" ++ hexRaw v) :: out)
+          | _ => (st, "?" :: out)
+        let (stF, out) := prog.toList.foldl stepP (st0, [])
+        let res := if stF.alloc > 281474976710656 then "panic" else ",".intercalate out.reverse
+        (s, res)
+    | _, _, _ => (s, "bad-op")
+  | "item" :: _ =>
+    -- DecodeBytes into an empty interface{}: the generic decoder = layer 1 (`Model.Rlp.decExact`), then EncodeToBytes of it
+    match argHex? toks "bytes" with
+    | some b => match decExact b with
+      | .ok i => (s, "ok t=" ++ showItem i ++ " b2=" ++ hexEncode (enc i))
+      | .error _ => (s, "err")
+    | none => (s, "bad-op")
+  | "split" :: _ =>
+    -- raw.go: Split, SplitString, SplitList, CountValues on the same bytes; x=agree: the Stream parser says the same
+    match argHex? toks "bytes" with
+    | some b =>
+      let okS (r : Except Err (Bytes × Bytes)) : String := match r with | .ok _ => "ok" | .error _ => "err"
+      let cv := match countValues (b.length + 1) b with | .ok n => toString n | .error _ => "err"
+      let tail := s!" ss={okS (splitString b)} sl={okS (splitList b)} cv={cv} x=agree"
+      match split b with
+      | .ok (k, c, r) =>
+        let kn := match k with | .byte => 0 | .string => 1 | .list => 2
+        (s, s!"ok k={kn} c={hexEncode c} r={hexEncode r}" ++ tail)
+      | .error _ => (s, "err" ++ tail)
+    | none => (s, "bad-op")
+  | "wenc" :: _ =>
+    -- the io.Writer entry points on a writer that takes `cap` bytes and then fails
+    match (arg? toks "ty").bind parseTyStr, argHex? toks "pre", (arg? toks "val").bind parseValStr, argNat? toks "cap" with
+    | some t, some pre, some v, some cap =>
+      match encodeBytes s.env t pre v with
+      | .ok b => if b.length ≤ cap then (s, s!"ok n={b.length} pfx=ok") else (s, s!"err n={cap} pfx=ok")
+      | .error .panic => (s, "panic")
+      | .error .fuel => (s, "fuel")
+      | .error .unsupported => (s, "unsupported")
+      | .error _ => (s, "err n=0 pfx=ok")
+    | _, _, _, _ => (s, "bad-op")
   | "rdec" :: _ =>
     -- the io.Reader entry points: lim=u (no input limit) or lim=<n> (DecodeReader[WithType] with that limit)
     match (arg? toks "ty").bind parseTyStr, argNat? toks "pre", argHex? toks "bytes", arg? toks "lim" with
